@@ -13,7 +13,7 @@
    Contract.group_batch = Grouping.pair_in_grouped on one batch), emit every item; the per-operation contract lemmas
    of C03 (Proofs/ContractProofs.v) are reused: replay only looks at the first structural event of each contract. *)
 Require Import WD.Base.Prelude WD.Base.BStr WD.Model.SubEvents WD.Model.Emitter WD.Model.Fs WD.Model.Reader
-               WD.Model.Pipeline WD.Model.Contract WD.Proofs.CoverProofs WD.Proofs.ReplayProofs WD.Proofs.ReplayPipeProofs.
+               WD.Model.Pipeline WD.Model.Contract WD.Proofs.CoverProofs WD.Proofs.CoverOutProofs WD.Proofs.ReplayProofs WD.Proofs.ReplayOutProofs WD.Proofs.ReplayPipeProofs.
 
 (* ---- the association-list replay has the obvious pointwise meaning, and keeps keys distinct *)
 Theorem C01_replay_semantics : forall recursive root t e, NoDup (map fst t) ->
@@ -47,23 +47,23 @@ Print Assumptions C01_replay_step.
 
 (* ---- sequential histories of any length over trees of any size: every operation is followed by a read of the
    whole kernel queue and the emission of the grouped items ([drun] accumulates the stream) *)
-Theorem C01_sequential_partial : forall C full, c_faults C = [] -> c_mask C = WATCHDOG_ALL ->
+Theorem C01_sequential_synced_partial : forall C full, c_faults C = [] -> c_mask C = WATCHDOG_ALL ->
   forall ops w k r t0 out, RSync C w k r ->
   TInv (c_recursive C) (c_root C) (replay (c_recursive C) (c_root C) t0 out) w -> ops_c01 C w ops ->
   exists w' k' r' out', drun C full w k r ops out = Some (w', k', r', out') /\ RSync C w' k' r' /\
     TInv (c_recursive C) (c_root C) (replay (c_recursive C) (c_root C) t0 out') w'.
 Proof. exact replay_sequential. Qed.
-Print Assumptions C01_sequential_partial.
+Print Assumptions C01_sequential_synced_partial.
 
 (* from a fresh watch: replaying the whole stream on the initial tree gives the final tree *)
-Theorem C01_from_start_partial : forall C full ops w, c_faults C = [] -> c_mask C = WATCHDOG_ALL -> wf_fs w ->
+Theorem C01_from_start_synced_partial : forall C full ops w, c_faults C = [] -> c_mask C = WATCHDOG_ALL -> wf_fs w ->
   fisdir (c_root C) (w_fs w) = true -> ops_c01 C w ops ->
   exists r0 k0 w' k' r' out, construct C kinit (w_fs w) = Some (r0, k0) /\
     drun C full w k0 r0 ops [] = Some (w', k', r', out) /\
     forall x, alookup beqb x (replay (c_recursive C) (c_root C) (tree_of (c_recursive C) (c_root C) w) out)
             = alookup beqb x (tree_of (c_recursive C) (c_root C) w').
 Proof. exact replay_from_start. Qed.
-Print Assumptions C01_from_start_partial.
+Print Assumptions C01_from_start_synced_partial.
 
 (* ---- the same block on the Pipeline model, through DelayQueue and Grouping (by C03_pipeline_tie): from an idle
    pipeline (ContractProofs.buffer_idle: nothing queued, nothing being grouped, consumer outside get()) the history
@@ -83,23 +83,96 @@ Print Assumptions C01_block_pipeline.
    AOp o; ARead (whole kernel queue); ATick delay; AEmit x nit   per applicable operation ([block_hist]); after every
    block the pipeline is synchronised and idle again ([PSync]: RSync, nothing buffered, reader thread and emitter alive -
    no raw event of a covered operation announces the end of the root), and the replay of p_out is the tree *)
-Theorem C01_sequential_pipeline_partial : forall P t0, let C := pc_reader P in
+Theorem C01_sequential_pipeline_synced_partial : forall P t0, let C := pc_reader P in
   c_faults C = [] -> c_mask C = WATCHDOG_ALL -> pc_filter P = None ->
   forall ops s, PSync P s -> ops_c01 C (p_world s) ops ->
   TInv (c_recursive C) (c_root C) (replay (c_recursive C) (c_root C) t0 (p_out s)) (p_world s) ->
   exists h s' obs, block_hist P s ops h /\ prun P s h [] = Done (s', obs) /\ PSync P s' /\
     TInv (c_recursive C) (c_root C) (replay (c_recursive C) (c_root C) t0 (p_out s')) (p_world s').
 Proof. exact blocks_replay. Qed.
-Print Assumptions C01_sequential_pipeline_partial.
+Print Assumptions C01_sequential_pipeline_synced_partial.
 
-Theorem C01_pipeline_from_start_partial : forall P ops w s0, let C := pc_reader P in
+Theorem C01_pipeline_from_start_synced_partial : forall P ops w s0, let C := pc_reader P in
   c_faults C = [] -> c_mask C = WATCHDOG_ALL -> pc_filter P = None -> wf_fs w -> fisdir (c_root C) (w_fs w) = true ->
   pinit P w = Some s0 -> ops_c01 C w ops ->
   exists h s' obs, block_hist P s0 ops h /\ prun P s0 h [] = Done (s', obs) /\ PSync P s' /\
     forall x, alookup beqb x (replay (c_recursive C) (c_root C) (tree_of (c_recursive C) (c_root C) w) (p_out s'))
             = alookup beqb x (tree_of (c_recursive C) (c_root C) (p_world s')).
 Proof. exact replay_pipeline_from_start. Qed.
+Print Assumptions C01_pipeline_from_start_synced_partial.
+
+(* ================================================================== past directory move-outs (the repair of F10) *)
+(* Vocabulary: Proofs/CoverOutProofs.v (GS, hot, hot_next, watched_parent, notified, blw - see Props/C02.v) and
+   Proofs/ReplayOutProofs.v: c01_x = c01_op or a directory of the tree moved out to a fresh place outside;
+   step_ok1 C w hot o: hot = None: c01_x; hot = Some h (a directory has just left to h): c01_op, acting in a directory
+   of the tree and notifying no directory at or below h.  Current code only (c_fix_moveout = true). *)
+
+(* the replay law for a directory that leaves the tree: deleted (full emitter: Moved(p, "")) + parent modified removes
+   the whole sub-tree from the replayed tree *)
+Theorem C01_replay_step_out : forall C full, c_mask C = WATCHDOG_ALL -> forall w k r p q w' ep t,
+  RSync C w k r -> npath p -> npath q -> c_recursive C = true ->
+  apply_op w (Rename p q) = Some w' -> flookup p (w_fs w) = Some ep -> f_dir ep = true ->
+  scope C p -> p <> c_root C -> ~ scope C q -> flookup q (w_fs w) = None ->
+  TInv (c_recursive C) (c_root C) t w ->
+  let k1 := kernel_op k (w_fs w) (Rename p q) in
+  forall r' k' raws, read_batch C (w_fs w') (r, drainq k1, []) (k_queue k1) = Done (r', k', raws) ->
+  TInv (c_recursive C) (c_root C) (replay (c_recursive C) (c_root C) t (delivered C full w' raws)) w'.
+Proof. exact replay_step_out. Qed.
+Print Assumptions C01_replay_step_out.
+
+(* one operation from a state synchronised up to junk, or right after a directory move-out *)
+Theorem C01_replay_step_x : forall C full, c_faults C = [] -> c_fix_moveout C = true -> c_mask C = WATCHDOG_ALL ->
+  forall w k r hot o w' t, GS C w k r hot -> step_ok1 C w hot o -> apply_op w o = Some w' ->
+  TInv (c_recursive C) (c_root C) t w ->
+  let k1 := kernel_op k (w_fs w) o in
+  exists r' k' raws, read_batch C (w_fs w') (r, drainq k1, []) (k_queue k1) = Done (r', k', raws) /\
+    GS C w' k' r' (hot_next C w hot o) /\ Forall (rsafe C) raws /\
+    TInv (c_recursive C) (c_root C) (replay (c_recursive C) (c_root C) t (delivered C full w' raws)) w'.
+Proof. exact gs_replay_step. Qed.
+Print Assumptions C01_replay_step_x.
+
+(* sequential histories of any length containing directory move-outs followed by anything in step_ok1 *)
+Theorem C01_sequential_partial : forall C full, c_faults C = [] -> c_fix_moveout C = true -> c_mask C = WATCHDOG_ALL ->
+  forall ops w k r hot t0 out, GS C w k r hot ->
+  TInv (c_recursive C) (c_root C) (replay (c_recursive C) (c_root C) t0 out) w -> ops_x1 C w hot ops ->
+  exists w' k' r' out' hot', drun C full w k r ops out = Some (w', k', r', out') /\ GS C w' k' r' hot' /\
+    TInv (c_recursive C) (c_root C) (replay (c_recursive C) (c_root C) t0 out') w'.
+Proof. exact replay_sequential_x. Qed.
+Print Assumptions C01_sequential_partial.
+
+Theorem C01_from_start_partial : forall C full, c_faults C = [] -> c_fix_moveout C = true -> c_mask C = WATCHDOG_ALL ->
+  forall ops w, wf_fs w -> fisdir (c_root C) (w_fs w) = true -> ops_x1 C w None ops ->
+  exists r0 k0 w' k' r' out, construct C kinit (w_fs w) = Some (r0, k0) /\
+    drun C full w k0 r0 ops [] = Some (w', k', r', out) /\
+    forall x, alookup beqb x (replay (c_recursive C) (c_root C) (tree_of (c_recursive C) (c_root C) w) out)
+            = alookup beqb x (tree_of (c_recursive C) (c_root C) w').
+Proof. exact replay_from_start_x. Qed.
+Print Assumptions C01_from_start_partial.
+
+(* on the Pipeline model, block by block *)
+Theorem C01_sequential_pipeline_partial : forall P t0, let C := pc_reader P in
+  c_faults C = [] -> c_fix_moveout C = true -> c_mask C = WATCHDOG_ALL -> pc_filter P = None ->
+  forall ops s hot, PSx P s hot -> ops_x1 C (p_world s) hot ops ->
+  TInv (c_recursive C) (c_root C) (replay (c_recursive C) (c_root C) t0 (p_out s)) (p_world s) ->
+  exists h s' obs hot', block_hist_x P s ops h /\ prun P s h [] = Done (s', obs) /\ PSx P s' hot' /\
+    TInv (c_recursive C) (c_root C) (replay (c_recursive C) (c_root C) t0 (p_out s')) (p_world s').
+Proof. exact blocks_replay_x. Qed.
+Print Assumptions C01_sequential_pipeline_partial.
+
+Theorem C01_pipeline_from_start_partial : forall P ops w s0, let C := pc_reader P in
+  c_faults C = [] -> c_fix_moveout C = true -> c_mask C = WATCHDOG_ALL -> pc_filter P = None -> wf_fs w ->
+  fisdir (c_root C) (w_fs w) = true -> pinit P w = Some s0 -> ops_x1 C w None ops ->
+  exists h s' obs hot', block_hist_x P s0 ops h /\ prun P s0 h [] = Done (s', obs) /\ PSx P s' hot' /\
+    forall x, alookup beqb x (replay (c_recursive C) (c_root C) (tree_of (c_recursive C) (c_root C) w) (p_out s'))
+            = alookup beqb x (tree_of (c_recursive C) (c_root C) (p_world s')).
+Proof. exact replay_pipeline_from_start_x. Qed.
 Print Assumptions C01_pipeline_from_start_partial.
+
+(* pinned code (c_fix_moveout = false) on the F10d history mkdir R/b; mkdir R/b/b; mv R/b/b O/x; mv O/x R/n; mv R/b R/m;
+   touch R/n/f : the replayed stream is NOT the tree (events carry the stale path) *)
+Theorem C01_f10d_pinned_refuted : run_replay (cfgo false) f10d_ops = Some false.
+Proof. exact f10d_replay_pinned_refuted. Qed.
+Print Assumptions C01_f10d_pinned_refuted.
 
 (* ================================================================== the full statements *)
 Definition repaired (C : cfg) : Prop :=
@@ -239,3 +312,34 @@ Example C01_pipeline_example :
     p_stopped s' = false /\ length (p_out s') = 28 /\
     same_tree (replay true pR (tree_of true pR w0) (p_out s')) (tree_of true pR (p_world s')) = true.
 Proof. eexists _, _. split; [vm_compute; reflexivity|]. split; [vm_compute; reflexivity|]. vm_compute. auto. Qed.
+
+(* the F10 histories on the repaired model: the replayed stream is the tree; and they satisfy ops_x1 *)
+Example C01_f10_repaired : run_replay (cfgo true) f10d_ops = Some true /\ run_replay (cfgo true) f10b_ops = Some true.
+Proof. exact f10d_replay_repaired. Qed.
+
+Example C01_f10b_ops_x1_nonvacuous : ops_x1 (cfgo true) w0 None f10b_ops.
+Proof.
+  assert (GR : gpath pR) by (split; [discriminate | reflexivity]).
+  assert (GO : gpath pO) by (split; [discriminate | reflexivity]).
+  assert (Na : forall n, valid_name [n] = true -> npath (sub pR n)) by (intros; now apply npath_sub).
+  assert (No : forall n, valid_name [n] = true -> npath (sub pO n)) by (intros; now apply npath_sub).
+  assert (NS : forall p, ~ scope (cfgo true) (sub pO p)) by (intros p [H|H]; vm_compute in H; discriminate).
+  unfold f10b_ops.
+  eapply ops_x1_cons; [vm_compute; reflexivity | apply c1_op; split; [apply co_mkdir; now apply Na | exact I] |].
+  eapply ops_x1_cons; [vm_compute; reflexivity | |].
+  { eapply c1_out; try (now apply Na); try (now apply No); try reflexivity; try (vm_compute; reflexivity);
+      try (right; vm_compute; reflexivity); try (vm_compute; discriminate). apply NS. }
+  vm_compute hot_next.
+  eapply ops_x1_cons; [vm_compute; reflexivity | |].
+  { split; [split; [apply co_mkdir; now apply Na | exact I]|]. split.
+    - exists pR. split; [now left|]. split; [now left | reflexivity].
+    - intros d [<-|[]]. vm_compute. reflexivity. }
+  vm_compute hot_next.
+  eapply ops_x1_cons; [vm_compute; reflexivity | |].
+  { apply c1_op. split; [|intros _; split; [right; vm_compute; reflexivity | split; [reflexivity | vm_compute; reflexivity]]].
+    eapply co_rename_dir; try (now apply Na); try reflexivity; try (vm_compute; reflexivity);
+      try (right; vm_compute; reflexivity); try (vm_compute; discriminate). }
+  exact I.
+Qed.
+(* the F10d history contains a directory moved INTO the tree: C02 covers it (C02_f10_ops_x_nonvacuous); its replay
+   (synthetic created events) is not proved in general - C01_f10_repaired above is the computed instance *)
